@@ -148,9 +148,18 @@ type PosArg struct {
 	Type     *Type
 	Required string // per-field required tag
 	Desc     string
+	Base     string // base tag (integer fields)
 
 	ID    string
 	Owner *Cmd
+}
+
+func (a *PosArg) BaseN() int {
+	if a.Base == "" {
+		return 10
+	}
+	n, _ := strconv.Atoi(a.Base)
+	return n
 }
 
 func (a *PosArg) ShownName() string {
@@ -429,6 +438,9 @@ func posType(c *Cmd) reflect.Type {
 		if a.Desc != "" {
 			t += " description:" + q(a.Desc)
 		}
+		if a.Base != "" {
+			t += " base:" + q(a.Base)
+		}
 		fs = append(fs, sf(a.Field, a.Type.RT, strings.TrimSpace(t)))
 	}
 	return reflect.StructOf(fs)
@@ -614,7 +626,12 @@ func (d *Decl) BuildTags() *Built {
 }
 
 // BuildAPI builds the same declaration through NewNamedParser / AddGroup / AddCommand.
-func (d *Decl) BuildAPI() *Built {
+func (d *Decl) BuildAPI() *Built { return d.BuildAPIWith(nil) }
+
+// BuildAPIWith is BuildAPI with the parser's sub-groups added last: the commands are added first, then
+// between(b) runs (typically parses or completions on the half-built parser), then the groups are added
+// to the parser. Options added late must be in scope everywhere an earlier-added one would be.
+func (d *Decl) BuildAPIWith(between func(b *Built)) *Built {
 	b := newBuilt(d)
 	p := flags.NewNamedParser("app", d.Options)
 	b.finishParser(p)
@@ -660,8 +677,10 @@ func (d *Decl) BuildAPI() *Built {
 	if _, err := p.AddGroup("Application Options", "", tv.Interface()); err != nil {
 		return fail(err)
 	}
-	if err := addGroups(p.Command, d.Top.Groups); err != nil {
-		return fail(err)
+	if between == nil {
+		if err := addGroups(p.Command, d.Top.Groups); err != nil {
+			return fail(err)
+		}
 	}
 	p.SubcommandsOptional = d.Top.SubOptional
 	b.Cmds[d.Top] = p.Command
@@ -676,7 +695,14 @@ func (d *Decl) BuildAPI() *Built {
 				b.ExecIDs[id] = c
 				st := &ExecState{ID: id, log: &b.ExecLog}
 				b.Execs[c] = st
-				if len(c.Pos) > 0 {
+				if len(c.Pos) > 0 && c.Pos[0].Type == TInt {
+					e := &ExecCmdPosInt{st: st}
+					data = e
+					ev := reflect.ValueOf(e).Elem().FieldByName("Args")
+					for _, a := range c.Pos {
+						b.PosVals[a] = ev.FieldByName(a.Field)
+					}
+				} else if len(c.Pos) > 0 {
 					e := &ExecCmdPos{st: st}
 					data = e
 					ev := reflect.ValueOf(e).Elem().FieldByName("Args")
@@ -729,6 +755,12 @@ func (d *Decl) BuildAPI() *Built {
 	}
 	if err := addCmds(p.Command, d.Top.Cmds); err != nil {
 		return fail(err)
+	}
+	if between != nil {
+		between(b)
+		if err := addGroups(p.Command, d.Top.Groups); err != nil {
+			return fail(err)
+		}
 	}
 	return b
 }
